@@ -135,6 +135,148 @@ GalerkinOpt(A, b, x0, m) ==
                     IN [def |-> TRUE, x |-> x, rho2 |-> Norm2(MSub(b, MMul(A, x)))]
 
 ---------------------------------------------------------------------------
+(* Wide integers.                                                          *)
+(*                                                                         *)
+(* Badly scaled systems (entries 1 .. 10^7, condition numbers 10^2..10^7)  *)
+(* have exact optimal residuals whose reduced numerators and denominators  *)
+(* need hundreds of bits, far beyond TLC's 32-bit integers.  They are      *)
+(* evaluated with sign-magnitude integers in base 2^14: a magnitude is a   *)
+(* little-endian sequence of digits 0..2^14-1 without leading zero digit   *)
+(* (<<>> is 0), so that digit*digit + digit + carry < 2^29 never overflows.*)
+(* A wide integer is [s |-> -1 | 0 | 1, m |-> magnitude].                  *)
+WB == 16384
+
+RECURSIVE MagTrim(_)
+MagTrim(a) == IF a = <<>> THEN a
+              ELSE IF a[Len(a)] = 0 THEN MagTrim(SubSeq(a, 1, Len(a) - 1)) ELSE a
+
+RECURSIVE MagAddC(_, _, _, _, _)
+MagAddC(a, b, i, cy, acc) ==
+    IF i > Len(a) /\ i > Len(b) THEN (IF cy = 0 THEN acc ELSE Append(acc, cy))
+    ELSE LET s == (IF i <= Len(a) THEN a[i] ELSE 0) + (IF i <= Len(b) THEN b[i] ELSE 0) + cy
+         IN MagAddC(a, b, i + 1, s \div WB, Append(acc, s % WB))
+MagAdd(a, b) == IF a = <<>> THEN b ELSE IF b = <<>> THEN a ELSE MagAddC(a, b, 1, 0, <<>>)
+
+\* a - b for a >= b
+RECURSIVE MagSubC(_, _, _, _, _)
+MagSubC(a, b, i, bw, acc) ==
+    IF i > Len(a) THEN MagTrim(acc)
+    ELSE LET s == a[i] - (IF i <= Len(b) THEN b[i] ELSE 0) - bw
+         IN IF s < 0 THEN MagSubC(a, b, i + 1, 1, Append(acc, s + WB))
+            ELSE MagSubC(a, b, i + 1, 0, Append(acc, s))
+MagSub(a, b) == MagSubC(a, b, 1, 0, <<>>)
+
+\* -1, 0, 1
+RECURSIVE MagCmpAt(_, _, _)
+MagCmpAt(a, b, i) == IF i = 0 THEN 0
+                     ELSE IF a[i] < b[i] THEN -1 ELSE IF a[i] > b[i] THEN 1 ELSE MagCmpAt(a, b, i - 1)
+MagCmp(a, b) == IF Len(a) < Len(b) THEN -1 ELSE IF Len(a) > Len(b) THEN 1 ELSE MagCmpAt(a, b, Len(a))
+
+\* a * d * WB^k for one digit d (schoolbook row)
+RECURSIVE MagMulDC(_, _, _, _, _)
+MagMulDC(a, d, i, cy, acc) ==
+    IF i > Len(a) THEN (IF cy = 0 THEN acc ELSE Append(acc, cy))
+    ELSE LET p == a[i] * d + cy IN MagMulDC(a, d, i + 1, p \div WB, Append(acc, p % WB))
+MagMulD(a, d, k) == IF d = 0 THEN <<>> ELSE MagMulDC(a, d, 1, 0, [i \in 1..k |-> 0])
+RECURSIVE MagMulAt(_, _, _)
+MagMulAt(a, b, j) == IF j > Len(b) THEN <<>> ELSE MagAdd(MagMulD(a, b[j], j - 1), MagMulAt(a, b, j + 1))
+MagMul(a, b) == IF a = <<>> \/ b = <<>> THEN <<>>
+                ELSE IF Len(a) >= Len(b) THEN MagMulAt(a, b, 1) ELSE MagMulAt(b, a, 1)
+
+RECURSIVE MagOfNat(_)
+MagOfNat(n) == IF n = 0 THEN <<>> ELSE <<n % WB>> \o MagOfNat(n \div WB)
+
+WZero == [s |-> 0, m |-> <<>>]
+WInt(n) == IF n = 0 THEN WZero
+           ELSE IF n > 0 THEN [s |-> 1, m |-> MagOfNat(n)] ELSE [s |-> -1, m |-> MagOfNat(-n)]
+WNeg(a) == [s |-> -a.s, m |-> a.m]
+WAdd(a, b) ==
+    IF a.s = 0 THEN b ELSE IF b.s = 0 THEN a
+    ELSE IF a.s = b.s THEN [s |-> a.s, m |-> MagAdd(a.m, b.m)]
+    ELSE LET c == MagCmp(a.m, b.m)
+         IN IF c = 0 THEN WZero
+            ELSE IF c > 0 THEN [s |-> a.s, m |-> MagSub(a.m, b.m)]
+            ELSE [s |-> b.s, m |-> MagSub(b.m, a.m)]
+WSub(a, b) == WAdd(a, WNeg(b))
+WMul(a, b) == IF a.s = 0 \/ b.s = 0 THEN WZero ELSE [s |-> a.s * b.s, m |-> MagMul(a.m, b.m)]
+WIsZero(a) == a.s = 0
+WLeq(a, b) == WSub(a, b).s <= 0
+\* a wide integer is well formed (checked on every exported value)
+WOk(a) == /\ a.s \in {-1, 0, 1} /\ (a.s = 0 <=> a.m = <<>>)
+          /\ \A i \in 1..Len(a.m): a.m[i] \in 0..(WB - 1)
+          /\ (a.m # <<>> => a.m[Len(a.m)] # 0)
+\* flat form for printing: <<sign, d1, d2, ...>>
+WFlat(a) == <<a.s>> \o a.m
+
+(* wide vectors (sequences) and matrices (sequences of rows) *)
+RECURSIVE WSumSeq(_)
+WSumSeq(s) == IF s = <<>> THEN WZero ELSE WAdd(Head(s), WSumSeq(Tail(s)))
+WDot(u, v) == WSumSeq([i \in 1..Len(u) |-> WMul(u[i], v[i])])
+WRows(X) == Len(X)
+WColsN(X) == IF X = <<>> THEN 0 ELSE Len(X[1])
+WCol(X, j) == [i \in 1..Len(X) |-> X[i][j]]
+WMatMul(X, Y) == [i \in 1..Len(X) |-> [j \in 1..WColsN(Y) |-> WDot(X[i], WCol(Y, j))]]
+WMatVec(X, v) == [i \in 1..Len(X) |-> WDot(X[i], v)]
+WTr(X) == [j \in 1..WColsN(X) |-> WCol(X, j)]
+WGram(X) == [i \in 1..WColsN(X) |-> [j \in 1..WColsN(X) |-> WDot(WCol(X, i), WCol(X, j))]]
+WVecScale(c, v) == [i \in 1..Len(v) |-> WMul(c, v[i])]
+WVecAdd(u, v) == [i \in 1..Len(u) |-> WAdd(u[i], v[i])]
+WVecSub(u, v) == [i \in 1..Len(u) |-> WSub(u[i], v[i])]
+WVecIsZero(v) == \A i \in 1..Len(v): WIsZero(v[i])
+\* matrix with the given columns (a sequence of equally long vectors, at least one)
+WOfCols(cols) == [i \in 1..Len(cols[1]) |-> [j \in 1..Len(cols) |-> cols[j][i]]]
+WMinor(X, i, j) ==
+    [a \in 1..(Len(X) - 1) |-> [b \in 1..(Len(X) - 1) |->
+        X[IF a < i THEN a ELSE a + 1][IF b < j THEN b ELSE b + 1]]]
+\* Laplace expansion along the first row (dimensions <= 5); the empty determinant is 1
+RECURSIVE WDet(_)
+WDet(X) ==
+    IF Len(X) = 0 THEN WInt(1)
+    ELSE IF Len(X) = 1 THEN X[1][1]
+    ELSE WSumSeq([j \in 1..Len(X) |->
+            IF WIsZero(X[1][j]) THEN WZero
+            ELSE LET t == WMul(X[1][j], WDet(WMinor(X, 1, j)))
+                 IN IF j % 2 = 1 THEN t ELSE WNeg(t)])
+\* X with column i replaced by the vector v
+WReplaceCol(X, i, v) == [a \in 1..Len(X) |-> [b \in 1..WColsN(X) |-> IF b = i THEN v[a] ELSE X[a][b]]]
+\* real integer Mat (d = 1) -> wide matrix / first column as a wide vector
+WOfMat(M) == [i \in 1..M.r |-> [j \in 1..M.c |-> WInt(M.e[i][j][1])]]
+WVecOfMat(M) == [i \in 1..M.r |-> WInt(M.e[i][1][1])]
+
+(* GMRES on a badly scaled real integer system, exactly.                    *)
+(*   K_j = [r0, A r0, .., A^(j-1) r0]   (plain power basis)                 *)
+(*   dist^2(r0, range(A K_j)) = det Gram([A K_j, r0]) / det Gram(A K_j)     *)
+(*   y = argmin ||r0 - A K_j y||: Cramer's rule on Gram(A K_j) y = (A K_j)^T r0 *)
+(*   x_m = x0 + K_j y = xn / xd with xd = det Gram(A K_j)                   *)
+RECURSIVE WPowerCols(_, _, _)
+WPowerCols(A, v, j) == IF j = 0 THEN <<>> ELSE <<v>> \o WPowerCols(A, WMatVec(A, v), j - 1)
+WKrylov(A, v, j) == WOfCols(WPowerCols(A, v, j))
+WGramDet(X) == WDet(WGram(X))
+WKDim(A, v) ==
+    IF WVecIsZero(v) THEN 0
+    ELSE CHOOSE j \in 1..Len(A):
+            /\ ~WIsZero(WGramDet(WKrylov(A, v, j)))
+            /\ (j = Len(A) \/ WIsZero(WGramDet(WKrylov(A, v, j + 1))))
+\* [n2/d2 = rho2_m, x_m = xn/xd, j = dimension of the space used]
+WGmresOptJ(A, b, x0, r0, j) ==
+    IF j = 0 THEN [n2 |-> WDot(r0, r0), d2 |-> WInt(1), xn |-> x0, xd |-> WInt(1), j |-> 0]
+    ELSE LET K == WKrylov(A, r0, j)
+             AK == WMatMul(A, K)
+             G == WGram(AK)
+             D == WDet(G)
+             c == WMatVec(WTr(AK), r0)
+             yn == [i \in 1..j |-> WDet(WReplaceCol(G, i, c))]
+             AKr == WOfCols(WPowerCols(A, WMatVec(A, r0), j) \o <<r0>>)
+         IN [n2 |-> WGramDet(AKr), d2 |-> D,
+             xn |-> WVecAdd(WVecScale(D, x0), WMatVec(K, yn)), xd |-> D, j |-> j]
+WGmresOpt(Am, bm, x0m, m) ==
+    LET A == WOfMat(Am)
+        b == WVecOfMat(bm)
+        x0 == WVecOfMat(x0m)
+        r0 == WVecSub(b, WMatVec(A, x0))
+    IN WGmresOptJ(A, b, x0, r0, Min2(m, WKDim(A, r0)))
+
+---------------------------------------------------------------------------
 (* singular value decompositions given by exact factors *)
 SigmaMat(r, c, sig) ==
     MkMat(r, c, LAMBDA i, j: IF i = j /\ i <= Len(sig) THEN CInt(sig[i]) ELSE CZ)
